@@ -180,7 +180,7 @@ register(
     level="proof",
     streams=["fifo", "fp", "arrival"],
     falsifier=fals_analyses.falsify_C18,
-    partial=["FIFO, fully preemptive FP and fully non-preemptive FP: proved (in EVERY legal schedule of a job set that realises the curves from a common instant, jobs at their WCET — NP-FP with a positive blocking bound: a lower-priority job of cost B+1 started one slot earlier — some job (FP: of the analysed task) has response time exactly the bound; legal schedules exist by greedy constructions). Realisability proved for sporadic/periodic tasks (critical instant) and for auto-extrapolating super-additive delta-min curves (densest event sequence). The existential form of the statement is proved end to end for sporadic / periodic task sets: FIFO, fully preemptive FP and fully non-preemptive FP (fifo_/fp_preemptive_/fp_nonpreemptive_bound_is_attained_by_some_schedule) — a job set complying with the task models (NP: plus one lower-priority job of cost B+1 released one slot earlier) and a legal schedule with a job whose response time equals the bound are constructed. Not assembled end to end: mixtures with extrapolating curves (the universal theorems plus realisability are proved; the job-set construction is not)"],
+    partial=["FIFO, fully preemptive FP and fully non-preemptive FP: proved (in EVERY legal schedule of a job set that realises the curves from a common instant, jobs at their WCET — NP-FP with a positive blocking bound: a lower-priority job of cost B+1 started one slot earlier — some job (FP: of the analysed task) has response time exactly the bound; legal schedules exist by greedy constructions). Realisability proved for sporadic/periodic tasks (critical instant) and for auto-extrapolating super-additive delta-min curves (densest event sequence). The existential form of the statement is proved end to end for EVERY task set mixing the three arrival models the property names — periodic, sporadic with release jitter, auto-extrapolating super-additive delta-min curves — for FIFO, fully preemptive FP and fully non-preemptive FP (fifo_/fp_preemptive_/fp_nonpreemptive_bound_is_attained_mixed; the sporadic-only versions *_by_some_schedule are kept): a job set complying with the task models (NP: plus one lower-priority job of cost B+1 released one slot earlier) and a legal schedule with a job whose response time equals the bound are constructed. Remaining restrictions: scalar WCETs; R > 0 (a task set with demand); NP-FP: the common instant t0 >= 1 so that the blocking job can be released one slot earlier"],
     explanation="tightness of the FIFO and of the fully preemptive FP bound as theorems over all legal schedules (lower bound by counting the work that must precede the completion of the last job released at the maximising offset; upper bound = C03/C01 soundness) plus existence of schedules (greedy scheduler constructions); the falsifier additionally schedules the critical-instant job sets (sporadic and extrapolating curves) and compares the worst response with the real bound.",
 )
 
